@@ -5,6 +5,7 @@ import CC.Model.Sym
 import CC.Model.Mac
 import CC.Model.Wire
 import CC.Model.WireLen
+import CC.Model.Dict
 /-! # Line-protocol driver for the model
 
 One operation per input line, one canonical output line per input line. The Rust harness
@@ -178,6 +179,10 @@ structure St where
   pkes : Array (Option (XEnc × Sealed)) := #[]
   hdrs : Array (Option (Header × DKey)) := #[]
   nm : Names := {}
+  /-- the data structures of `src/data_struct`, driven directly (hook `verif_hooks`) -/
+  dict : DictRep Nat := DictRep.empty
+  rmap : RevMap := []
+  rvec : RevVec := []
 
 def setSlot {α} (a : Array (Option α)) (i : Nat) (v : Option α) : Array (Option α) :=
   let a := if a.size ≤ i then a ++ Array.replicate (i + 1 - a.size) none else a
@@ -260,7 +265,98 @@ def mpkOut (st : St) (k : Nat) (m : Msk) : St × String :=
   let (nm, s) := mpkStr st.nm mpk
   ({ st with mpks := setSlot st.mpks k (some mpk), nm := nm }, s)
 
+/-! ## the data structures of `src/data_struct`, function by function
+
+`Dict<String, u32>` against the representation model `DictRep` (the object of `CC.Props.DictRefine`),
+`RevisionMap<String, u32>` against `RevMap`, `RevisionVec<String, u32>` against `RevVec` /
+`revisions` — the very definitions the theorems of C03, C04, C05 and C14 are about. A `u32` stands
+for a master secret `(flag, {tok, hyb})` as `flag + 2·hyb + 4·tok`, for a user secret as `hyb + 2·tok`. -/
+
+def mOfNat (v : Nat) : Bool × Sk := (v % 2 == 1, ⟨v / 4, (v / 2) % 2 == 1⟩)
+def natOfM (p : Bool × Sk) : Nat := (if p.1 then 1 else 0) + (if p.2.hyb then 2 else 0) + 4 * p.2.tok
+def uOfNat (v : Nat) : Sk := ⟨v / 2, v % 2 == 1⟩
+def natOfU (s : Sk) : Nat := (if s.hyb then 1 else 0) + 2 * s.tok
+def keyR (k : String) : Right := k.toUTF8.toList
+def rKey (r : Right) : String := (String.fromUTF8? (ByteArray.mk r.toArray)).getD "?"
+
+def optNat : Option Nat → String
+  | none => "ok -"
+  | some v => "ok " ++ toString v
+
+def dots (l : List Nat) : String := String.intercalate "." (l.map toString)
+
+/-- `k=v,k=v` -/
+def parsePairs (s : String) : Option (List (String × Nat)) :=
+  if s == "-" then some [] else
+  (s.splitOn ",").mapM (fun kv => match kv.splitOn "=" with
+    | [k, v] => v.toNat?.map (fun n => (k, n))
+    | _ => none)
+
+/-- `k:v1.v2;k:;k:v3` -/
+def parseChains (s : String) : Option (List (String × List Nat)) :=
+  if s == "-" then some [] else
+  (s.splitOn ";").mapM (fun kc => match kc.splitOn ":" with
+    | [k, c] => (if c == "" then some [] else (c.splitOn ".").mapM (·.toNat?)).map (fun l => (k, l))
+    | _ => none)
+
+def dsStep (st : St) : List String → Option (St × String)
+  | ["d_new"] => some ({ st with dict := DictRep.empty }, "ok")
+  | ["d_insert", k, v] => v.toNat?.map (fun v =>
+      match st.dict.insert k v with
+      | none => (st, "panic")
+      | some (d, _) => ({ st with dict := d }, "ok"))
+  | ["d_remove", k] => some (
+      match st.dict.remove k with
+      | none => (st, "panic")
+      | some (d, old) => ({ st with dict := d }, if old.isSome then "ok 1" else "ok 0"))
+  | ["d_rename", a, b] => some (
+      match st.dict.updateKey a b with
+      | none => (st, "panic")
+      | some (.error .missing) => (st, "err missing")
+      | some (.error .existing) => (st, "err existing")
+      | some (.ok d) => ({ st with dict := d }, "ok"))
+  | ["d_get", k] => some (st, optNat (st.dict.get k))
+  | ["d_has", k] => some (st, if st.dict.containsKey k then "ok 1" else "ok 0")
+  | ["d_set", k, v] => v.toNat?.map (fun v =>
+      let r := st.dict.modify k (fun _ => v)
+      ({ st with dict := r.1 }, if r.2 then "ok 1" else "ok 0"))
+  | ["d_len"] => some (st, "ok " ++ toString st.dict.len)
+  | ["d_iter"] => some (st, "ok " ++ String.intercalate "," (st.dict.iter.map (fun p => p.1 ++ "=" ++ toString p.2)))
+  | ["d_from", l] => (parsePairs l).map (fun l =>
+      match DictRep.fromList l with
+      | none => (st, "panic")
+      | some d => ({ st with dict := d }, "ok"))
+  | ["m_new"] => some ({ st with rmap := [] }, "ok")
+  | ["m_insert", k, v] => v.toNat?.map (fun v => ({ st with rmap := st.rmap.insert (keyR k) (mOfNat v) }, "ok"))
+  | ["m_latest", k] => some (st, optNat ((st.rmap.getLatest (keyR k)).map natOfM))
+  | ["m_setlatest", k, v] => v.toNat?.map (fun v =>
+      match st.rmap.getLatest (keyR k) with
+      | none => (st, "ok 0")
+      | some _ => ({ st with rmap := st.rmap.setLatest (keyR k) (mOfNat v) }, "ok 1"))
+  | ["m_has", k] => some (st, if st.rmap.containsKey (keyR k) then "ok 1" else "ok 0")
+  | ["m_get", k] => some (st, match st.rmap.get (keyR k) with
+      | none => "ok -"
+      | some c => "ok " ++ dots (c.map natOfM))
+  | ["m_keep", k, n] => n.toNat?.map (fun n => ({ st with rmap := st.rmap.keep (keyR k) n }, "ok"))
+  | ["m_retain", ks] =>
+      let keep := if ks == "-" then [] else ks.splitOn ","
+      some ({ st with rmap := st.rmap.retain (fun r => keep.contains (rKey r)) }, "ok")
+  | ["m_len"] => some (st, "ok " ++ toString st.rmap.length)
+  | ["m_count"] => some (st, "ok " ++ toString ((st.rmap.map (·.2.length)).sum))
+  | ["m_dump"] => some (st, "ok " ++ String.intercalate ";" (sortStrs (st.rmap.map (fun p => rKey p.1 ++ ":" ++ dots (p.2.map natOfM)))))
+  | ["v_from", l] => (parseChains l).map (fun l =>
+      ({ st with rvec := l.map (fun p => (keyR p.1, p.2.map uOfNat)) }, "ok"))
+  | ["v_revisions"] => some (st, "ok " ++ String.intercalate "|" ((revisions st.rvec).map (fun rev =>
+      String.intercalate "," (rev.map (fun p => rKey p.1 ++ "=" ++ toString (natOfU p.2))))))
+  | ["v_len"] => some (st, "ok " ++ toString st.rvec.length)
+  | ["v_count"] => some (st, "ok " ++ toString (revTotal st.rvec))
+  | ["v_keys"] => some (st, "ok " ++ String.intercalate "," (st.rvec.map (fun p => rKey p.1)))
+  | _ => none
+
 def step (st : St) (line : String) : St × String :=
+  match dsStep st (line.trimAscii.toString.splitOn " ") with
+  | some r => r
+  | none =>
   match line.trimAscii.toString.splitOn " " with
   | ["reset"] => ({}, "ok")
   | ["noop"] => (st, "bad-op")
